@@ -1,7 +1,7 @@
 LIBS = ["libvpsc", "libcola", "libavoid", "libtopology", "libdialect"]
 HARNESS = "harness/c18.cpp"
 DRIVER_MODE = "c18"
-LEAN_MODULES = ["AdaptaVerif.Props.C18"]
+LEAN_MODULES = ["AdaptaVerif.Props.C18", "AdaptaVerif.Props.C18Tie"]
 LEVEL = "proof"
 
 # Which `flippedRetrieval` semantics of SepMatrix::getSepPair the C++ in /repo is expected to follow:
@@ -51,6 +51,17 @@ ASSUMPTIONS = ["SepMatrix extra boundary gap is >= 0 and not -0.0 (a negative to
 EXHAUSTIVE = {"quick": False, "thorough": False}
 EXPLANATION = ("table class is exhaustive over direction x relation x gap type x transform x {-7,-0,+0,7}; "
                "histories and graphs are sampled")
+
+
+def regenerate(ROOT, REPO):
+    """the SepDir switch kernels (negateSepDir, sepDirIsCardinal, lateralWeakening, cardinalStrengthening)
+    are regenerated from constraints.cpp by cpp2lean on every run and proved equal to Model/Sep.lean
+    (Props/C18Tie.lean)"""
+    import sys
+    from pathlib import Path
+    sys.path.insert(0, str(Path(ROOT) / "tools" / "cpp2lean"))
+    import jobs
+    return jobs.regenerate(["sepdir"], Path(ROOT), Path(REPO))
 
 
 def plan(tier, seed, searching):
